@@ -30,7 +30,7 @@ Proof. unfold send_tx_list. cbv zeta. eapply rstatic_trans; [apply (chk_dev_st r
 Lemma send_rx_list_st r i dst tp : rstatic r (fst (send_rx_list r i dst tp)).
 Proof. unfold send_rx_list. cbv zeta. eapply rstatic_trans; [apply (chk_dev_st r i)|apply send_step_st]. Qed.
 Lemma send_heartbeat_forced_st r i : rstatic r (fst (send_heartbeat_forced r i)).
-Proof. unfold send_heartbeat_forced. cbv zeta. eapply rstatic_trans; [apply (chk_dev_st r i)|apply send_step_st]. Qed.
+Proof. unfold send_heartbeat_forced. destruct (negb _); [apply rstatic_refl|]. cbv zeta. eapply rstatic_trans; [apply (chk_dev_st r i)|apply send_step_st]. Qed.
 Lemma send_product_info_to_st r i dst tp : rstatic r (fst (send_product_info_to r i dst tp)).
 Proof.
   unfold send_product_info_to. cbv zeta. pose proof (chk_dev_st r i) as S0. set (rc := chk_dev r i) in *.
@@ -112,7 +112,10 @@ Proof. unfold send_tx_list. cbv zeta. intros H Hi A. eapply send_step_nr; [exact
 Lemma send_rx_list_nr n Y i dst tp r2 ev : send_rx_list Y i dst tp = (r2, ev) -> 0 <= i -> NR n [] (rn Y) -> NR n ev (rn r2).
 Proof. unfold send_rx_list. cbv zeta. intros H Hi A. eapply send_step_nr; [exact H|exact Hi|nr]. Qed.
 Lemma send_heartbeat_forced_nr n Y i r2 ev : send_heartbeat_forced Y i = (r2, ev) -> 0 <= i -> NR n [] (rn Y) -> NR n ev (rn r2).
-Proof. unfold send_heartbeat_forced. cbv zeta. intros H Hi A. eapply send_step_nr; [exact H|exact Hi|nr]. Qed.
+Proof.
+  unfold send_heartbeat_forced. destruct (negb _); [intros H Hi A; injection H as <- <-; exact A|].
+  cbv zeta. intros H Hi A. eapply send_step_nr; [exact H|exact Hi|nr].
+Qed.
 Lemma send_product_info_to_nr n Y i dst tp r2 ev : send_product_info_to Y i dst tp = (r2, ev) -> 0 <= i -> NR n [] (rn Y) -> NR n ev (rn r2).
 Proof.
   unfold send_product_info_to. intros H Hi A. cbv zeta in H. destruct (rsend _ _ i) as [[r1 ev1] ok] eqn:E. injection H as <- <-.
